@@ -25,20 +25,20 @@ def PS(ps):
 
 
 def P(a):
-    return PA.Pauli(G(a[0]), int(a[1]))
+    return _reg(PA.Pauli(G(a[0]), int(a[1])), 'P', [[int(v) for v in a[0]], int(a[1])])
 
 
 def PL(l, width=0):
-    return PA.PauliList(GS([a[0] for a in l], width), PS([a[1] for a in l]))
+    return _reg(PA.PauliList(GS([a[0] for a in l], width), PS([a[1] for a in l])), 'PL', [[[int(v) for v in a[0]], int(a[1])] for a in l])
 
 
 def CM(l):
-    return ST.CliffordMap(GS([a[0] for a in l]), PS([a[1] for a in l]))
+    return _reg(ST.CliffordMap(GS([a[0] for a in l]), PS([a[1] for a in l])), 'PL', [[[int(v) for v in a[0]], int(a[1])] for a in l])
 
 
 def STATE(t):
     rows, r = t
-    return ST.StabilizerState(GS([a[0] for a in rows]), ps=PS([a[1] for a in rows])).set_r(int(r))
+    return _reg(ST.StabilizerState(GS([a[0] for a in rows]), ps=PS([a[1] for a in rows])).set_r(int(r)), 'ST', [[[[int(v) for v in a[0]], int(a[1])] for a in rows], int(r)])
 
 
 def iv(x):
@@ -71,10 +71,58 @@ def optmask(m):
     return torch.tensor([bool(b) for b in v])
 
 
-def guard(f):
-    def w(*a):
+# ---- argument watch: every object the adapter builds from plain values during one op call is remembered; when the call returns, all of them except the
+# designated receivers (RCV) of in-place methods must still hold exactly the values they were built from.  Violations are queued in MUT_EVENTS and turned
+# into oracle failures by vlib.run.do ("an operation modified its argument").
+_BUILT = []
+MUT_EVENTS = []
+
+
+def _reg(obj, kind, desc):
+    _BUILT.append([obj, kind, desc, False])
+    return obj
+
+
+def RCV(obj):
+    """the receiver of an in-place method: allowed to change"""
+    for e in _BUILT:
+        if e[0] is obj:
+            e[3] = True
+    return obj
+
+
+def _current(obj, kind):
+    if kind == 'P':
+        return oP(obj)
+    if kind == 'ST':
+        return oST(obj)
+    return oPL(obj)
+
+
+def _watch_begin():
+    del _BUILT[:]
+
+
+def _watch_end(opname):
+    for obj, kind, desc, rcv in _BUILT:
+        if rcv:
+            continue
         try:
-            return f(*a)
+            now = _current(obj, kind)
+        except Exception as e:      # the object no longer holds integer bits / phases
+            now = 'unreadable: %s' % type(e).__name__
+        if now != desc:
+            MUT_EVENTS.append({'op': opname, 'kind': kind, 'before': desc, 'after': now})
+    del _BUILT[:]
+
+
+def guard(f, name='?'):
+    def w(*a):
+        _watch_begin()
+        try:
+            r = f(*a)
+            _watch_end(name)
+            return r
         except Exception as e:   # noqa
             return Err(1)
     return w
@@ -85,7 +133,7 @@ OPS = {}
 
 def op(name):
     def d(f):
-        OPS[name] = guard(f)
+        OPS[name] = guard(f, name)
         return f
     return d
 
@@ -122,18 +170,18 @@ def _(n, C, rows):
     return oRows(gs, ps)
 @op('transform')
 def _(m, mask, l):
-    o = PL(l)
+    o = RCV(PL(l))
     o.transform_by(CM(m), mask=optmask(mask))
     return oPL(o)
 @op('rotate')
 def _(gen, mask, l):
-    o = PL(l)
+    o = RCV(PL(l))
     mk = optmask(mask)
     o.rotate_by(P(gen), mask=None if mk is None else mk.numpy())
     return oPL(o)
 @op('rotate_seq')
 def _(gms, l):
-    o = PL(l)
+    o = RCV(PL(l))
     for gen, mask in gms:
         mk = optmask(mask)
         o.rotate_by(P(gen), mask=None if mk is None else mk.numpy())
@@ -159,7 +207,7 @@ def _(a, b): return oPL(CM(a).compose(CM(b)))
 @op('inverse')
 def _(a): return oPL(CM(a).inverse())
 @op('embed')
-def _(big, small, m): return oPL(CM(big).embed(CM(small), np.array(m, dtype=bool)))
+def _(big, small, m): return oPL(RCV(CM(big)).embed(CM(small), np.array(m, dtype=bool)))
 @op('rotation_map')
 def _(gen): return oPL(ST.clifford_rotation_map(P(gen)))
 @op('map_to_state')
@@ -199,13 +247,13 @@ def _(t, m): return iv(STATE(t).entropy([i for i, b in enumerate(m) if b]))     
 def _(n, gs, m): return iv(U.stabilizer_entropy(GS(gs, 2 * n), torch.tensor([bool(b) for b in m])))
 @op('state_rotate')
 def _(gen, mask, t):
-    s = STATE(t)
+    s = RCV(STATE(t))
     mk = optmask(mask)
     s.rotate_by(P(gen), mask=None if mk is None else mk.numpy())
     return oST(s)
 @op('state_transform')
 def _(m, mask, t):
-    s = STATE(t)
+    s = RCV(STATE(t))
     s.transform_by(CM(m), mask=optmask(mask))
     return oST(s)
 @op('diag1')
@@ -243,3 +291,34 @@ def _(l): return oPL(-PL(l))
 def _(c, l): return oPL([1, 1j, -1, -1j][c] * PL(l))
 @op('list_weight')
 def _(l): return [iv(v) for v in PL(l).weight()]
+
+
+# ---------------------------------------------------------------- circuits (torchclifford has CliffordGate / CliffordLayer / CliffordCircuit; no named gates, no Circuit with measurements)
+def mk_gate(spec):
+    """same gate specs as impl_np.mk_gate; a named gate becomes a forward-map gate with the table of the pyclifford gate"""
+    qs, k = spec
+    qs = [int(q) for q in qs]
+    g = CI.CliffordGate(*qs)
+    if k[0] == 0:
+        g.generator = P(k[1])
+        return g
+    if k[0] == 1:
+        f, b = k[1], k[2]
+        if f is not None:
+            g.set_forward_map(CM(f.v if isinstance(f, Some) else f))
+        if b is not None:
+            g.set_backward_map(CM(b.v if isinstance(b, Some) else b))
+        return g
+    if k[0] == 2:
+        from . import impl_np as NP_
+        ng = NP_.mk_gate(spec)
+        g.set_forward_map(CM(NP_.oPL(ng.forward_map)))
+        return g
+    raise ValueError('gate spec')
+
+
+def build_circuit(n, prog):
+    c = CI.CliffordCircuit()
+    for ins in prog:
+        c.take(mk_gate(ins[1]))
+    return c
